@@ -342,6 +342,12 @@ type c18WSample struct {
 type c18WCase struct {
 	Samples []c18WSample `json:"samples"`
 	Perm    []int        `json:"perm"`
+	// Times: the list is folded that many times over into one window (long-lived windows: tens of thousands of
+	// samples). InitN / InitAvg: the fold starts from a window built through the exported constructor that already
+	// summarises InitN samples of InitAvg each (0 = the empty window).
+	Times   int   `json:"times,omitempty"`
+	InitN   int   `json:"init_n,omitempty"`
+	InitAvg int64 `json:"init_avg,omitempty"`
 }
 
 func genC18W(t *rapid.T) c18WCase {
@@ -355,6 +361,11 @@ func genC18W(t *rapid.T) c18WCase {
 		})
 	}
 	c.Perm = rapid.Permutation(seq(n)).Draw(t, "perm")
+	c.Times = rapid.SampledFrom([]int{1, 1, 1, 1, 1, 1, 2, 20, 300, 3000}).Draw(t, "times")
+	if rapid.IntRange(0, 3).Draw(t, "init") == 0 {
+		c.InitN = rapid.OneOf(rapid.IntRange(1, 100), rapid.IntRange(1, 1<<20), rapid.SampledFrom([]int{255, 256, 1023, 1024, 32767, 32768, 65535, 65536, 1<<20 - 1})).Draw(t, "initN")
+		c.InitAvg = rapid.Int64Range(1, 1<<30).Draw(t, "initAvg")
+	}
 	return c
 }
 
@@ -377,21 +388,30 @@ func summarise(w *measurements.ImmutableSampleWindow) winSummary {
 }
 
 func runC18W(_ *testing.T, c c18WCase) kit.Outcome {
+	times := c.Times
+	if times < 1 {
+		times = 1
+	}
 	fold := func(order []int) (winSummary, string) {
 		w := measurements.NewImmutableSampleWindow(-1, 0, 0, 0, 0, false)
-		for _, i := range order {
-			s := c.Samples[i]
-			before := summarise(w)
-			var nw *measurements.ImmutableSampleWindow
-			if s.Drop {
-				nw = w.AddDroppedSample(-1, s.Inf)
-			} else {
-				nw = w.AddSample(-1, s.RTT, s.Inf)
+		if c.InitN > 0 {
+			w = measurements.NewImmutableSampleWindow(-1, c.InitAvg, c.InitAvg*int64(c.InitN), 0, c.InitN, false)
+		}
+		for round := 0; round < times; round++ {
+			for _, i := range order {
+				s := c.Samples[i]
+				before := summarise(w)
+				var nw *measurements.ImmutableSampleWindow
+				if s.Drop {
+					nw = w.AddDroppedSample(-1, s.Inf)
+				} else {
+					nw = w.AddSample(-1, s.RTT, s.Inf)
+				}
+				if summarise(w) != before {
+					return winSummary{}, fmt.Sprintf("receiver changed by adding %+v: %+v -> %+v", s, before, summarise(w))
+				}
+				w = nw
 			}
-			if summarise(w) != before {
-				return winSummary{}, fmt.Sprintf("receiver changed by adding %+v: %+v -> %+v", s, before, summarise(w))
-			}
-			w = nw
 		}
 		return summarise(w), ""
 	}
@@ -401,6 +421,9 @@ func runC18W(_ *testing.T, c c18WCase) kit.Outcome {
 	}
 	want := winSummary{Min: math.MaxInt64}
 	var sum int64
+	if c.InitN > 0 {
+		want.Min, want.N, sum = c.InitAvg, c.InitN, c.InitAvg*int64(c.InitN)
+	}
 	drops := 0
 	for _, s := range c.Samples {
 		if s.Inf > want.MaxInf {
@@ -411,8 +434,8 @@ func runC18W(_ *testing.T, c c18WCase) kit.Outcome {
 			drops++
 			continue
 		}
-		want.N++
-		sum += s.RTT
+		want.N += times
+		sum += s.RTT * int64(times) // <= 30 samples x 2^40 x 3000 + 2^20 x 2^30: far below 2^63
 		if s.RTT < want.Min {
 			want.Min = s.RTT
 		}
@@ -434,14 +457,14 @@ func runC18W(_ *testing.T, c c18WCase) kit.Outcome {
 	if got2 != got {
 		return kit.Viol("window:order", "summary depends on order: %+v vs %+v", got, got2)
 	}
-	return kit.Outcome{NonTrivial: drops > 0 && want.N >= 2, Labels: []string{fmt.Sprintf("drops>0:%v", drops > 0)}}
+	return kit.Outcome{NonTrivial: drops > 0 && want.N >= 2, Labels: []string{fmt.Sprintf("drops>0:%v", drops > 0), fmt.Sprintf("folded>=65536:%v", want.N >= 65536)}}
 }
 
 func TestC18_window(t *testing.T) {
 	kit.RequireMode(t, "std")
 	kit.Check(t, kit.Prop[c18WCase]{
 		ID: "C18", Quick: 3000, Thor: 400_000,
-		Rule: "sample lists folded into ImmutableSampleWindow in given and permuted order; non-trivial = at least one drop and two successes",
+		Rule: "sample lists folded into ImmutableSampleWindow in given and permuted order, 1-3000 times over (windows of up to 90 000 samples) and optionally on top of a window built through the exported constructor that already holds up to 2^20 samples; non-trivial = at least one drop and two successes",
 		Gen:  genC18W, Run: runC18W,
 	})
 }
